@@ -169,7 +169,14 @@ def run(ctx):
                 'otherwise header = the header produced for the same inputs with rows, and (all inputs header-only) no data rows. '
                 'Non-trivial: every case (each is a distinct operator/position/shape).')
     ctx.assumptions += ['operators outside the catalogue (listed in uncovered_public_names) are not checked']
-    ctx.prove(['PetlProofs.Props.C20'], REQUIRED)
+    from translators import bare_next as _bn
+    try:
+        _info = _bn.generate()
+        ctx.bridge('translator: unguarded data-row next() calls in %d generator functions (%d sites)' % (_info['generators'], len(_info['sites'])), True)
+        ctx.extra['bare_next_sites'] = [list(x) for x in _info['sites']]
+    except Exception as e:   # noqa
+        ctx.bridge('translator: bare next() sites extracted', False, repr(e))
+    ctx.prove(['PetlProofs.Props.C20'], REQUIRED + ['Petl.C20.no_unguarded_data_next'])
     rng = ctx.rng
     cat = catalogue(etl)
     shapes = [['k', 'v'], ['k', 'v', 'w']]
